@@ -341,7 +341,7 @@ func declared2(n *Node, kw string) *Node {
 // contributed lists the names a grouping adds to a node that uses it.
 func contributed(gr *Node, depth int) []string {
 	var out []string
-	if depth > 12 {
+	if depth > 60 {
 		return out
 	}
 	for _, c := range gr.Kids {
@@ -369,7 +369,7 @@ func isData(kw string) bool {
 
 func nestDepth(gr *Node, depth int) int {
 	best := 0
-	if depth > 12 {
+	if depth > 60 {
 		return 0
 	}
 	var walk func(n *Node)
@@ -981,7 +981,7 @@ type c06Visit struct {
 }
 
 func (g *c06) expand(v *c06Visit, mod *Module, n *Node, cur []c06Step, parentKw string, via []*Node, depth int) {
-	if depth > 14 {
+	if depth > 60 {
 		return
 	}
 	for _, c := range n.Kids {
@@ -1076,10 +1076,8 @@ func (g *c06) rec(mod *Module, steps []c06Step, n *Node) C06Rec {
 		r.Cfg = argOf(n, "config", "unset")
 	case "list":
 		r.Key = argOf(n, "key", "")
-	case "rpc":
+	case "rpc", "action":
 		r.RPC = true
-	case "action":
-		r.RPC = declared2(n, "input") != nil || declared2(n, "output") != nil
 	}
 	if n.Kw == "list" || n.Kw == "leaf-list" {
 		min := argOf(n, "min-elements", "0")
@@ -1337,6 +1335,18 @@ func (g *c06) mutate(c *C06Case) {
 		nmut := 1 + g.r.Intn(3)
 		for k := 0; k < nmut; k++ {
 			t := inside[g.r.Intn(len(inside))]
+			// one change per node, and nothing at, inside or above a node that another change names
+			// (a removed node cannot be named again; a change above would reach into this one)
+			tp := append([]string{t.mod.Name}, stepsPath(t.steps, true)...)
+			clash := false
+			for _, op := range touchedPaths {
+				if hasPrefixPath(tp, op) || hasPrefixPath(op, tp) {
+					clash = true
+				}
+			}
+			if clash {
+				continue
+			}
 			host, pfx := hostFor(t.mod)
 			kind := g.pick([]string{"augment", "not-supported", "add", "replace", "delete", "replace", "add"})
 			var st *Node
